@@ -96,8 +96,7 @@ def run_job(job):
         G.RNG.CELL = None
         G.RNG.FIX_MODE_DRAW = cond in ('data', 'seed')
         G.RNG.FEW_SHUFFLES = cond in ('data', 'seed')
-        cc = CC.__new__(CC)
-        cc.dataset_info = {'general': {}, 'combinations': [], 'correlations': [], 'duplicates': [], 'labels': {}, 'noise': []}
+        cc = CC(seed=11 if cond == 'seed' else 7)      # the real constructor (it seeds the generator)
         probs = []
         if cond == 'naive':
             ns = G.load_naive()
